@@ -121,6 +121,18 @@ def run_case(case, workdir):
                     rec.fail("iter_count", sub, "yielded %d boxes, level has %d" % (len(val), nb))
                 elif not all(isinstance(v, np.ndarray) for v in val) or multiset(val) != exp_ms:
                     rec.fail("iter_values", sub, "yielded boxes are not the stored boxes (as a multiset)")
+            # environment: the interpreter's warning filter is "error" (python -W error, a strict test runner, a host
+            # application): a complete iteration or a loud failure are both fine - an iteration that ENDS NORMALLY must
+            # still have yielded every box once
+            if fcls == "A":
+                import warnings as _w
+                with _w.catch_warnings():
+                    _w.simplefilter("error")
+                    ctl, (st, val) = run_iter({})
+                rec.exe([dh, "iter_warnings_as_errors", ftag, lv], nontrivial=True, trans=sum(c["n"] for c in ctl.calls))
+                if st != "exc" and (len(val) != nb or multiset(val) != exp_ms):
+                    rec.fail("iter_count" if len(val) != nb else "iter_values", {"op": "iter", "field": ftag, "level": lv, "environment": "warnings filter = error"},
+                             "yielded %d boxes without an error, level has %d" % (len(val), nb))
             # history on ONE stream object: integer on-demand reads, then the level iteration, then an on-demand list
             if fcls == "A":
                 with vpool.controlled():
